@@ -9,7 +9,8 @@ import EaselModel.Pipeline.WakeSteps
 /-! # C12 — property theorems (statements + glue only; lemmas live in WorkQueue/*.lean, Dsqdata/*.lean)
 
 Work queue (`esl_workqueue.c`): every theorem is about *all* states reachable from `esl_workqueue_Create(size)` by
-*any* interleaving of one reader thread and any number of worker threads, one step per mutex-protected region,
+*any* interleaving of one reader thread, any number of worker threads, and `esl_workqueue_Init` calls that may come from
+a controller thread even while the reader already sleeps on the empty queue, one step per mutex-protected region,
 spurious wake-ups allowed (`Reachable`), under the caller's contract `Admissible` (a block is handed to `Init`
 once; at most `size` blocks are handed in; `Reset` is not called while a worker sleeps in `WorkerUpdate`). -/
 namespace EaselModel.Props.C12
@@ -65,6 +66,12 @@ theorem wq_wake_delivers {size : Nat} (hs : 0 < size) {s : Sys} (h : Reachable s
     ∃ s' b bs, step s (.workerWake w) = .ok s' ∧ s.wBlocks = b :: bs ∧ s'.wBlocks = bs ∧
       s'.got = (w, some b) :: s.got ∧ (w, b) ∈ s'.held :=
   wake_delivers s w sg (reachable_inv hs h) hw hc
+
+/-- **Reset** moves all queued blocks back to the reader's list in order: worker queue empty afterwards, reader queue =
+    old reader contents followed by the old worker contents, `pendingWorkers = 0` -/
+theorem wq_reset_spec {size : Nat} (hs : 0 < size) {s s' : Sys} (h : Reachable size s) (ha : Admissible s .reset)
+    (hst : step s .reset = .ok s') : s'.wBlocks = [] ∧ s'.rBlocks = s.rBlocks ++ s.wBlocks ∧ s'.pending = 0 :=
+  reset_spec s s' (reachable_inv hs h) ha hst
 
 /-- the "queue overflow" exception (which would leave the mutex locked) is unreachable -/
 theorem wq_no_overflow {size : Nat} (hs : 0 < size) {s : Sys} (h : Reachable size s) (l : Label)
@@ -330,6 +337,15 @@ theorem pipe_no_lost_wakeup {U T C : Nat} (hU : 0 < U) {s : Pipeline.Sys} (h : P
     (s.reader.isSome = true → s.rsig = false → Pipeline.readBlocked s = true) :=
   let w := Pipeline.reachable_winv hU h
   ⟨w.lw, w.uw, w.rw⟩
+
+/-- **EOF reaches every consumer.** In any reachable state in which all `T` chunks have been returned and the unpacker
+    serving the lane of the next `Read` has exited, `esl_dsqdata_Read` by any consumer `c` returns EOF immediately, as
+    often as it is called (with `pipe_no_deadlock` / `pipe_no_lost_wakeup`: the pipeline gets there). -/
+theorem pipe_eof_delivered {U T C : Nat} (hU : 0 < U) {s : Pipeline.Sys} (h : Pipeline.Reachable U T C s)
+    (hn : s.nchunk = s.T) (hd : (s.lane (s.nchunk % s.U)).upc = .done) (hr : s.reader = none) (c : Nat) :
+    Pipeline.step s (.read c) = some { s with reader := none, eofs := c :: s.eofs } :=
+  let i := Pipeline.reachable_inv2 hU h
+  Pipeline.read_eof_at_end s i.1 i.2 hn hd hr c
 
 /-- **Buffers are conserved and all destroyed at exit.** Chunk buffers created = live + destroyed; every live buffer
     is in exactly one place (a lane, the recycling stack, a consumer's hands, the loader's hands), `nalloc` counts
